@@ -194,3 +194,32 @@ Definition read_plain (fs : fsys) (root : str) (includes comments : bool) (count
       let s' := mkSD (sd_data s) (sd_lc s) (sd_bc s) (sd_inc s) [] in
       Ok (if includes then s' else mkSD (remove_include_keys (sd_data s')) (sd_lc s') (sd_bc s') (sd_inc s') [], c)))
   end.
+
+(* ---- DictWriter.write (native / Foam): parse_values on the source, append = read + merge -------------- *)
+Fixpoint parse_values_tree (t : tree) : res tree :=
+  match t with
+  | Leaf v => bind (parse_scalar v) (fun v' => Ok (Leaf v'))
+  | Dict kvs =>
+      bind ((fix go (l : list (key * tree)) : res (list (key * tree)) :=
+               match l with
+               | [] => Ok []
+               | (k, c) :: l' => bind (parse_values_tree c) (fun c' => bind (go l') (fun r => Ok ((k, c') :: r)))
+               end) kvs) (fun kvs' => Ok (Dict kvs'))
+  | Lst ts =>
+      bind ((fix go (l : list tree) : res (list tree) :=
+               match l with
+               | [] => Ok []
+               | c :: l' => bind (parse_values_tree c) (fun c' => bind (go l') (fun r => Ok (c' :: r)))
+               end) ts) (fun ts' => Ok (Lst ts'))
+  end.
+Definition write_text (foam : bool) (path : str) (existing : option str) (append : bool) (d : list (key * tree))
+  : res str :=
+  bind (parse_values_tree (Dict d)) (fun t =>
+  let d' := kvs_of_tree t in
+  match existing, append with
+  | Some text, true =>
+      bind (read_plain [(norm_path path, FNative text)] path true true (-1)%Z) (fun sc =>
+      let s := sd_merge (fst sc) d' None in
+      Ok (if foam then foam_to_string_sd s else to_string_sd s))
+  | _, _ => Ok (if foam then foam_to_string_plain d' else to_string_plain d')
+  end).
